@@ -219,16 +219,16 @@ Proof.
 Qed.
 
 Lemma remlen_value fuel : forall mult buf v k rest,
-  remlen fuel mult buf = Some (v, k, rest) -> 0 < mult -> v < mult * 128 ^ k.
+  remlen fuel mult buf = Some (v, k, rest) -> v + mult <= mult * 128 ^ k.
 Proof.
-  induction fuel as [| fuel IH]; intros mult buf v k rest H Hm.
+  induction fuel as [| fuel IH]; intros mult buf v k rest H.
   - discriminate.
   - destruct buf as [| b r]; [discriminate |]. cbn [remlen] in H.
     pose proof (Byte.to_N_bounded b) as Hb.
     destruct (Byte.to_N b <? 128) eqn:E.
     + injection H as <- <- <-. change (128 ^ 1) with 128. nia.
     + destruct (remlen fuel (mult * 128) r) as [[[v' k'] rest'] |] eqn:Er; [| discriminate].
-      injection H as <- <- <-. pose proof (IH _ _ _ _ _ Er ltac:(lia)) as H5.
+      injection H as <- <- <-. pose proof (IH _ _ _ _ _ Er) as H5.
       rewrite N.pow_add_r. change (128 ^ 1) with 128. nia.
 Qed.
 
@@ -248,8 +248,7 @@ Proof.
   pose proof (remlen_firstn 4 1 buf) as Hf.
   unfold uvarint.
   destruct (remlen 4 1 buf) as [[[v k] rest] |] eqn:Er.
-  - destruct (uvarint_loop_some 4 (firstn 4 buf) 0 0 0 1 v k _) as (H1 & _);
-      [reflexivity | reflexivity | lia | lia | exact Hf |].
+  - destruct (uvarint_loop_some 4 (firstn 4 buf) 0 0 0 1 v k _ eq_refl eq_refl ltac:(lia) ltac:(lia) Hf) as (H1 & _).
     rewrite H1. f_equal.
   - rewrite (uvarint_loop_none 4 (firstn 4 buf) 0 0 0 1); [reflexivity | reflexivity | reflexivity | lia | | exact Hf].
     rewrite firstn_length. lia.
@@ -317,18 +316,19 @@ Proof.
   destruct (negb (ptype_eqb t TPublish) && negb (nibble_lo b0 =? default_flags t)) eqn:Ef; [discriminate |].
   destruct (remaining_length r1) as [[[rl' k] after] |] eqn:Er; [| discriminate].
   destruct (len after <? rl') eqn:El; [discriminate |].
-  intros H. injection H as <- <- <-.
+  intros H. remember (1 + k) as tk eqn:Htk. injection H as <- <- <-.
   destruct (remlen_bounds _ _ _ _ _ _ Er) as (H1 & H2 & H3 & H4).
-  pose proof (remlen_value _ _ _ _ _ _ Er ltac:(lia)) as H5.
+  pose proof (remlen_value _ _ _ _ _ _ Er) as H5.
   exists b0, r1, k. subst after. rewrite len_skipn in El.
   assert (Hpow : 128 ^ k <= 128 ^ 4) by (apply N.pow_le_mono_r; lia).
   change (128 ^ 4) with 268435456 in Hpow.
-  repeat split; try lia; try assumption.
-  - apply negb_false_iff in Et. lia.
-  - apply andb_false_iff in Ef. destruct Ef as [Ef | Ef]; apply negb_false_iff in Ef.
+  apply negb_false_iff in Et.
+  assert (Hfl : t = TPublish \/ nibble_lo b0 = default_flags t).
+  { apply andb_false_iff in Ef. destruct Ef as [Ef | Ef]; apply negb_false_iff in Ef.
     + left. unfold ptype_eqb in Ef. destruct t; try reflexivity; discriminate.
-    + right. lia.
-  - rewrite len_cons. lia.
+    + right. lia. }
+  rewrite len_cons.
+  repeat split; try lia; try assumption.
 Qed.
 
 Lemma header_no_panic src t : decode_header src t <> HPanic.
@@ -348,5 +348,6 @@ Proof.
   destruct (_ && _); [intros H; injection H as <-; rewrite !len_cons; lia |].
   destruct (remaining_length _) as [[[rl k] after] |] eqn:Er; [| intros H; injection H as <-; rewrite !len_cons; lia].
   destruct (remlen_bounds _ _ _ _ _ _ Er) as (H1 & H2 & H3 & H4).
-  destruct (_ <? _); [| discriminate]. intros H; injection H as <-. rewrite len_cons. lia.
+  destruct (_ <? _); [| discriminate]. intros H. replace n with (1 + k) by congruence.
+  rewrite !len_cons in *. lia.
 Qed.
